@@ -1,11 +1,11 @@
 """C08 — requests reach exactly the matching application, else the specified error (Mon_C08.tla)"""
 from . import nodecommon as nc
-from .c08_plan import PROFILE, plans, ASSUME
+from .c08_plan import PROFILE, plans, ASSUME, enum_plans
 
 
 def run(tier, seed):
     mc, sim = plans(tier)
-    ck = nc.run_property("C08", tier, seed, "Inv08", PROFILE, mc, sim, 1500 if tier == "thorough" else 240, ASSUME)
+    ck = nc.run_property("C08", tier, seed, "Inv08", PROFILE, mc, sim, 1500 if tier == "thorough" else 240, ASSUME, enum_plan=enum_plans(tier))
     return ck.finish()
 
 
